@@ -129,11 +129,16 @@ def main():
     elif scenario == "index_save":
         idx = imd5(ibuild(ws, fs), state=state)
         isave(idx, odb=odb)
-    elif scenario == "store_transfer":
+    elif scenario in ("store_transfer", "store_transfer_named"):
         src = LocalHashFileDB(fs, os.path.join(root, "src"))
         with open(os.path.join(root, "src-oids.json")) as fh:
             oids = json.load(fh)
-        transfer(src, odb, {HashInfo("md5", o) for o in oids}, shallow=True)
+        if scenario.endswith("_named"):
+            # the ids carry the display names dvc gives them (obj_name is for messages only; it identifies nothing)
+            ids = {HashInfo("md5", o, obj_name=f"data/sub dir/item {k}") for k, o in enumerate(oids)}
+        else:
+            ids = {HashInfo("md5", o) for o in oids}
+        transfer(src, odb, ids, shallow=True)
     elif scenario == "upload":
         staging, _meta, obj = build(odb, data, fs, "md5", upload=True)
         transfer(staging, odb, {obj.hash_info}, shallow=False)
